@@ -92,7 +92,8 @@ def zip_bytes(members):
             else:
                 fname = raw.decode("cp437")
             zcls = zipfile.ZipInfo if (flags.get("utf8") or fname.isascii()) else _CP437Info
-            zi = zcls(fname, date_time=(2001, 9, 9, 1, 46, 40))
+            # flags['date']: another DOS time stamp (the format does not forbid month 0 or second 62)
+            zi = zcls(fname, date_time=tuple(flags.get("date") or (2001, 9, 9, 1, 46, 40)))
             zi.compress_type = zipfile.ZIP_DEFLATED
             if kind == "d":
                 if not zi.filename.endswith("/"):
